@@ -49,6 +49,93 @@ def _cond_map(path) -> Dict[str, Any]:
     return {k: v for k, v in path.conds}
 
 
+def check_generic_traversal(ctx: Ctx, env, cls_q: str, transformer: bool, rule: str):
+    """R2/R3: generic_visit of the base visitor / transformer, evaluated for every concrete node class."""
+    repo, schema = env.repo, env.schema
+    vm = repo.modules["odata_query.visitor"]
+    kenv = KindEnv(schema)  # the full schema, not only the parser's image
+    r = repo.lookup_method(cls_q, "generic_visit")
+    if r is None:
+        raise AnalysisError(f"{cls_q}.generic_visit not found")
+    ci, fn = r
+    for kind in schema.concrete():
+        nc = schema.classes[kind]
+        interp = Interp(repo, schema, kenv)
+
+        def setup(it, kind=kind):
+            return ci.module, fn, [ObjV(cls_q, {}, "self"), NodeV("node", {kind})], {}, ci.qual
+
+        paths = interp.explore(setup)
+        key = f"{cls_q.rsplit('.', 1)[-1]}|{kind}"
+        if not paths:
+            ctx.fail(rule, key, "no feasible path through generic_visit", vm.loc(fn))
+            continue
+        ok = True
+        for x in paths:
+            cm = _cond_map(x)
+            expected: List[str] = []
+            for f in nc.fields:
+                if f.shape == "node":
+                    expected.append(f"node.{f.name}")
+                elif f.shape == "optional_node":
+                    fnode = x.entry["args"][1].fields.get(f.name) if len(x.entry.get("args", [])) > 1 else None
+                    if not (isinstance(fnode, NodeV) and fnode.kinds == {"NoneType"}):
+                        expected.append(f"node.{f.name}")
+                elif f.shape == "list_node":
+                    if cm.get(f"empty(node.{f.name})") is not True:
+                        expected.append(f"node.{f.name}[*]")
+            got = _visit_seq(x)
+            if x.outcome != "return":
+                ok = False
+                ctx.fail(rule, key, f"generic_visit raises {x.value!r} under {x.cond_str()[:100]}", x.where)
+                break
+            if got != expected:
+                ok = False
+                ctx.fail(rule, key, f"visits {got}, expected {expected} (each contained node once, field order then list order)"
+                         + (f" under {x.cond_str()[:100]}" if x.conds else ""), vm.loc(fn))
+                break
+            for ev in x.events:
+                if ev.kind == "mutate":
+                    ok = False
+                    ctx.fail("R6.no-mutation", f"{key}|{ev.data.get('target')}", f"generic_visit mutates its input: {ev.data}", ev.where)
+            if transformer and ok:
+                v = x.value
+                if not expected and isinstance(v, NodeV) and v.path == "node":
+                    continue  # nothing below this node on this path: handing the (immutable) node back is an equal tree
+                if not (isinstance(v, NewNode) and v.cls == kind):
+                    ok = False
+                    ctx.fail(rule, key, f"returns {v!r}, expected a new ast.{kind}", vm.loc(fn))
+                    break
+                for f in nc.fields:
+                    fv = v.fields.get(f.name)
+                    good = False
+                    if f.shape == "node":
+                        good = _is_visit_of(fv, f"node.{f.name}")
+                    elif f.shape == "optional_node":
+                        good = _is_visit_of(fv, f"node.{f.name}") or (
+                            f"node.{f.name}" not in expected and isinstance(fv, NodeV) and fv.path == f"node.{f.name}" and fv.kinds == {"NoneType"})
+                    elif f.shape == "list_node":
+                        if isinstance(fv, PyList) and fv.created_in is not None:
+                            if f"node.{f.name}[*]" in expected:
+                                good = (not fv.items and len(fv.loop_parts) == 1 and
+                                        getattr(fv.loop_parts[0][0], "path", None) == f"node.{f.name}" and
+                                        len(fv.loop_parts[0][1]) == 1 and _is_visit_of(fv.loop_parts[0][1][0], f"node.{f.name}[*]"))
+                            else:
+                                good = not fv.items and not fv.loop_parts
+                        elif isinstance(fv, MapV):
+                            good = getattr(fv.over, "path", None) == f"node.{f.name}" and _is_visit_of(fv.elem, f"node.{f.name}[*]") \
+                                and not getattr(fv, "filtered", False)
+                    else:
+                        good = isinstance(fv, Sym) and fv.op == "field" and fv.args[1] == f.name and getattr(fv.args[0], "path", "") == "node"
+                    if not good:
+                        ok = False
+                        ctx.fail(rule, f"{key}|{f.name}", f"rebuilt field {f.name} is {fv!r}: not the visited/unchanged original", vm.loc(fn))
+        if ok:
+            ctx.ok(rule, key, f"{len(paths)} path(s)")
+            if kind in ("Call", "CollectionLambda", "Identifier"):
+                ctx.sample({"class": key, "visit_sequence": _visit_seq(paths[0]), "paths": len(paths)})
+
+
 def run(ctx: Ctx, env):
     repo, schema = env.repo, env.schema
     if VISITOR not in repo.classes or TRANSFORMER not in repo.classes:
@@ -75,91 +162,13 @@ def run(ctx: Ctx, env):
     ctx.floor("node classes", n_cls, 40)
 
     # ---- R2 / R3 generic traversals ----------------------------------------------------------------------------
-    kenv = KindEnv(schema)  # the full schema, not only the parser's image
-    for cls_q, transformer in ((VISITOR, False), (TRANSFORMER, True)):
-        r = repo.lookup_method(cls_q, "generic_visit")
-        if r is None:
-            raise AnalysisError(f"{cls_q}.generic_visit not found")
-        ci, fn = r
-        rule = "R3.transformer-rebuilds" if transformer else "R2.visitor-traverses"
-        for kind in schema.concrete():
-            nc = schema.classes[kind]
-            interp = Interp(repo, schema, kenv)
-
-            def setup(it, kind=kind):
-                return ci.module, fn, [ObjV(cls_q, {}, "self"), NodeV("node", {kind})], {}, ci.qual
-
-            paths = interp.explore(setup)
-            key = f"{cls_q.rsplit('.', 1)[-1]}|{kind}"
-            if not paths:
-                ctx.fail(rule, key, "no feasible path through generic_visit", vm.loc(fn))
-                continue
-            ok = True
-            for x in paths:
-                cm = _cond_map(x)
-                expected: List[str] = []
-                for f in nc.fields:
-                    if f.shape == "node":
-                        expected.append(f"node.{f.name}")
-                    elif f.shape == "optional_node":
-                        fnode = x.entry["args"][1].fields.get(f.name) if len(x.entry.get("args", [])) > 1 else None
-                        if not (isinstance(fnode, NodeV) and fnode.kinds == {"NoneType"}):
-                            expected.append(f"node.{f.name}")
-                    elif f.shape == "list_node":
-                        if cm.get(f"empty(node.{f.name})") is not True:
-                            expected.append(f"node.{f.name}[*]")
-                got = _visit_seq(x)
-                if x.outcome != "return":
-                    ok = False
-                    ctx.fail(rule, key, f"generic_visit raises {x.value!r} under {x.cond_str()[:100]}", x.where)
-                    break
-                if got != expected:
-                    ok = False
-                    ctx.fail(rule, key, f"visits {got}, expected {expected} (each contained node once, field order then list order)"
-                             + (f" under {x.cond_str()[:100]}" if x.conds else ""), vm.loc(fn))
-                    break
-                for ev in x.events:
-                    if ev.kind == "mutate":
-                        ok = False
-                        ctx.fail("R6.no-mutation", f"{key}|{ev.data.get('target')}", f"generic_visit mutates its input: {ev.data}", ev.where)
-                if transformer and ok:
-                    v = x.value
-                    if not (isinstance(v, NewNode) and v.cls == kind):
-                        ok = False
-                        ctx.fail(rule, key, f"returns {v!r}, expected a new ast.{kind}", vm.loc(fn))
-                        break
-                    for f in nc.fields:
-                        fv = v.fields.get(f.name)
-                        good = False
-                        if f.shape == "node":
-                            good = _is_visit_of(fv, f"node.{f.name}")
-                        elif f.shape == "optional_node":
-                            good = _is_visit_of(fv, f"node.{f.name}") or (
-                                f"node.{f.name}" not in expected and isinstance(fv, NodeV) and fv.path == f"node.{f.name}" and fv.kinds == {"NoneType"})
-                        elif f.shape == "list_node":
-                            if isinstance(fv, PyList) and fv.created_in is not None:
-                                if f"node.{f.name}[*]" in expected:
-                                    good = (not fv.items and len(fv.loop_parts) == 1 and
-                                            getattr(fv.loop_parts[0][0], "path", None) == f"node.{f.name}" and
-                                            len(fv.loop_parts[0][1]) == 1 and _is_visit_of(fv.loop_parts[0][1][0], f"node.{f.name}[*]"))
-                                else:
-                                    good = not fv.items and not fv.loop_parts
-                            elif isinstance(fv, MapV):
-                                good = getattr(fv.over, "path", None) == f"node.{f.name}" and _is_visit_of(fv.elem, f"node.{f.name}[*]") \
-                                    and not getattr(fv, "filtered", False)
-                        else:
-                            good = isinstance(fv, Sym) and fv.op == "field" and fv.args[1] == f.name and getattr(fv.args[0], "path", "") == "node"
-                        if not good:
-                            ok = False
-                            ctx.fail(rule, f"{key}|{f.name}", f"rebuilt field {f.name} is {fv!r}: not the visited/unchanged original", vm.loc(fn))
-            if ok:
-                ctx.ok(rule, key, f"{len(paths)} path(s)")
-                if kind in ("Call", "CollectionLambda", "Identifier"):
-                    ctx.sample({"class": key, "visit_sequence": _visit_seq(paths[0]), "paths": len(paths)})
+    check_generic_traversal(ctx, env, VISITOR, False, "R2.visitor-traverses")
+    check_generic_traversal(ctx, env, TRANSFORMER, True, "R3.transformer-rebuilds")
 
     # ---- R4 dispatch ----------------------------------------------------------------------------------------
     visitors = [VISITOR] + repo.subclasses(VISITOR)
     n_disp = 0
+    kenv = KindEnv(schema)
     for vq in visitors:
         r = repo.lookup_method(vq, "visit")
         if r is None:
